@@ -160,6 +160,9 @@ func (aa ArchiveInfoList) validate() error {
 		if a.offset != off {
 			return fmt.Errorf("invalid archive%v: invalid offset got:%v, want:%v", i, a.offset, off)
 		}
+		if uint64(off)+uint64(a.numberOfPoints)*pointSize > math.MaxUint32 {
+			return fmt.Errorf("invalid archive%v: archive end offset must be representable in 32 bits", i)
+		}
 
 		if i == len(aa)-1 {
 			break
